@@ -236,7 +236,7 @@ func (d *regDriver) Call(ip *absint.Interp, site ssa.CallInstruction, args []abs
 	if cal == nil {
 		return nil, false
 	}
-	if d.c.InScope(cal) && cal.Signature.Recv() != nil && pureTextFn(d.c, cal, 0) {
+	if d.c.InScope(cal) && cal.Signature.Recv() != nil && d.ownState(core.NamedOf(cal.Signature.Recv().Type())) && pureTextFn(d.c, cal, 0) {
 		return &absint.Opaque{Why: "text of " + cal.Name()}, true // a rendering for a log line: reads and formats only
 	}
 	if full := cal.String(); strings.HasPrefix(full, "(*sync/atomic.") {
@@ -340,6 +340,16 @@ func (d *regDriver) Field(ip *absint.Interp, obj *absint.Tok, name string, typ t
 		panic(&absint.Undecided{Msg: "the registry inspects field " + name + " of a stored value (" + obj.ID + "): its behaviour depends on the payload, which the typestate model does not cover"})
 	}
 	return nil // default: fresh token named recv.<field>
+}
+
+// ownState: n is the registry type or one of the unexported struct types it keeps its state in (not something it stores).
+func (d *regDriver) ownState(n *types.Named) bool {
+	for _, x := range stateTypes(d.T) {
+		if n != nil && x == n {
+			return true
+		}
+	}
+	return false
 }
 
 func (d *regDriver) method(name string) *ssa.Function { return d.c.DeclaredMethod(d.T, name) }
@@ -617,7 +627,8 @@ func c04(c *core.Ctx, r *core.Report) {
 		} else {
 			rs.report(c, r, l.exposer, func(row string) string {
 				// (early-reuse: what is published for the name is the early reference that was handed out for it)
-				if row == "expose-iff-condition" || row == "lookup-after-init" || row == "early-reuse" {
+				// (stale-detected: when it is another version, and somebody was handed the early one, the creation fails)
+				if row == "expose-iff-condition" || row == "lookup-after-init" || row == "early-reuse" || row == "stale-detected" {
 					return "C04.R3"
 				}
 				return ""
